@@ -154,6 +154,11 @@ type Conn struct {
 	dataHandler func(c *Conn, data []byte)
 
 	onConnected func(c *Conn, err error)
+
+	// 1 while poller.addConn is registering the connection (between the
+	// hand-over to the poller and the end of the registration), 2 when it
+	// was closed meanwhile: addConn then finishes the close.
+	opening int32
 }
 
 // Hash returns a hash code of this connection.
@@ -1099,6 +1104,13 @@ func (c *Conn) closeWithErrorWithoutLock(err error) error {
 	}
 
 	if c.p != nil {
+		if atomic.CompareAndSwapInt32(&c.opening, 1, 2) {
+			// addConn is still registering this connection (its open
+			// notification may not even have been delivered): it delivers
+			// the close notification and closes the descriptor when it is
+			// done, see poller.finishOpen.
+			return nil
+		}
 		c.p.deleteConn(c)
 	}
 
